@@ -566,6 +566,13 @@ class File:
         self.pos += avail
         return SBytes(r)
 
+    def readinto(self, buf):
+        if not isinstance(buf, SBytes):
+            raise HarnessError("bvio: readinto(%r)" % type(buf))
+        got = self.read(len(buf.bs))
+        buf.bs[:len(got.bs)] = got.bs
+        return len(got.bs)
+
 
 class SizeFile:
     """Position-only file for the size-field obligation (payload never materialised)."""
@@ -916,6 +923,22 @@ def sx_int(x, *a):
     return int(x, *a)
 
 
+def sx_bytearray(x=0, *a):
+    """bytearray(n): n zero bytes as a mutable symbolic buffer (readinto target, struct / ndarray source)."""
+    if a:
+        raise HarnessError("bvio: bytearray with an encoding")
+    if isinstance(x, SBytes):
+        return SBytes(list(x.bs))
+    if isinstance(x, (bytes, bytearray)):
+        return SBytes(bv8(bytes(x)))
+    n = _cidx(x)
+    if n < 0:
+        raise ValueError("negative count")
+    if n > 1 << 24:
+        raise MemoryError("bytearray(%d)" % n)
+    return SBytes([z3.BitVecVal(0, 8) for _ in range(n)])
+
+
 def sx_fmt(fmt, args):
     """'...' % args without evaluating symbolic values (messages are never compared)."""
     def plain(v):
@@ -951,7 +974,7 @@ def sx_isinstance(x, t):
 class _RW(ast.NodeTransformer):
     def visit_Call(self, n):
         self.generic_visit(n)
-        if isinstance(n.func, ast.Name) and n.func.id in ("len", "type", "int", "isinstance"):
+        if isinstance(n.func, ast.Name) and n.func.id in ("len", "type", "int", "isinstance", "bytearray"):
             n.func = ast.Name("_sx_" + n.func.id, ast.Load())
         elif (isinstance(n.func, ast.Attribute) and n.func.attr == "from_bytes"
               and isinstance(n.func.value, ast.Name) and n.func.value.id == "int"):
@@ -982,7 +1005,7 @@ def load_indxio():
     pkg.__path__ = []
     sys.modules["catii"] = pkg
     sys.modules["catii.iindexes"] = ii
-    m.__dict__.update(_sx_len=sx_len, _sx_type=sx_type, _sx_int=sx_int, _sx_isinstance=sx_isinstance, _sx_from_bytes=sx_from_bytes, _sx_fmt=sx_fmt)
+    m.__dict__.update(_sx_len=sx_len, _sx_type=sx_type, _sx_int=sx_int, _sx_isinstance=sx_isinstance, _sx_from_bytes=sx_from_bytes, _sx_fmt=sx_fmt, _sx_bytearray=sx_bytearray)
     sys.modules["numpy"] = NP
     sys.modules["struct"] = struct_
     sys.modules["mmap"] = mmap_
